@@ -1072,7 +1072,7 @@ fn main() {
     let (n_dyn, n_static, static_from) = if cfg!(miri) {
         (args.get_u64("cases", 8), shapes / 4, (seed % 4) * (shapes / 4))
     } else {
-        (args.n(60_000, 2_000_000), args.n(shapes * 400, shapes * 25_000), 0)
+        (args.n(40_000, 2_000_000), args.n(shapes * 400, shapes * 25_000), 0)
     };
     par_cases(&mut r, &args, n_dyn, |i, r| dyn_case(r, seed, i));
     par_cases(&mut r, &args, n_static, |i, r| static_case(r, seed, static_from + i));
